@@ -251,7 +251,7 @@ prop("C16",
           "faithful), 2.002 s and 1001-based segment durations, low-latency sessions (ato 3/4, chunkdur 1/4 of a 1.0-1.6 s segment, chunked "
           "transfer; also combined with statuscode_), an upload aborted by deleting the session. Non-trivial = a history with >= 3 effective "
           "steps on a session with >= 2 representations.",
-     quick=dict(shards=2, timeout=500), thorough=dict(shards=16, timeout=1500, pct=500), crash_is_violation=True,
+     quick=dict(shards=2, timeout=500), thorough=dict(shards=16, timeout=1500, pct=250), crash_is_violation=True,
      assumptions=COMMON + ["step mode (testNowMS) only: wall-clock pacing of the session loop is not exercised; chunked sessions are exercised with 1.0-1.6 s segments (each step is produced in real time)",
                            "a session with a duration is drawn only for assets whose representations share one segment grid (DESIGN O7)"])
 
